@@ -179,6 +179,11 @@ struct ReqSpec {
     built_version: u8,
     /// session (algorithm, s2c key, c2s key) the request was made under
     sess: Option<(u16, Vec<u8>, Vec<u8>)>,
+    /// the server-minted cookie the request presents in its authenticated part (if any)
+    cookie: Option<Cookie>,
+    /// the exact bytes of the request when it is RFC-conformant by construction; the positive
+    /// clause of C15 only speaks about datagrams that ARRIVE as exactly these bytes
+    strict_bytes: Option<Vec<u8>>,
 }
 
 fn cipher_for(alg: u16, key: &[u8]) -> Box<dyn Cipher> {
@@ -612,7 +617,7 @@ fn hand_header(r: &mut Rng, spec: &mut ReqSpec, version: u8, poll: u8) -> Hdr {
 fn build_request(w: &mut World, ci: usize, focus: &str) -> (Vec<u8>, ReqSpec) {
     let mut r = sub_rng("req.rng");
     let poll = w.clients[ci].poll;
-    let mut spec = ReqSpec { label: "v4-poll", strict: true, nts: Nts::None, real_client: true, canaries: Vec::new(), client: ci, built_version: 0, sess: None };
+    let mut spec = ReqSpec { label: "v4-poll", strict: true, nts: Nts::None, real_client: true, canaries: Vec::new(), client: ci, built_version: 0, sess: None, cookie: None, strict_bytes: None };
     let adv_w = if matches!(focus, "C16" | "C17" | "C18" | "C22") { 6 } else { 3 };
     let kind = weighted("req.kind", &[6, 1, 2, 1, 4, 2, 2, adv_w, adv_w, 1]);
     let bytes = match kind {
@@ -646,6 +651,7 @@ fn build_request(w: &mut World, ci: usize, focus: &str) -> (Vec<u8>, ReqSpec) {
             let want = (8 - s.cookies.len().min(7)) as u8;
             let c2s = cipher_for(s.alg, &s.c2s);
             spec.sess = Some((s.alg, s.s2c.clone(), s.c2s.clone()));
+            spec.cookie = Some(cookie.clone());
             spec.nts = Nts::Valid { cookie_server: cookie.server, cookie_epoch: cookie.epoch };
             let p = if v5 {
                 NtpPacket::nts_poll_message_v5(&cookie.bytes, want, PollInterval::from_byte(poll)).0
@@ -672,6 +678,9 @@ fn build_request(w: &mut World, ci: usize, focus: &str) -> (Vec<u8>, ReqSpec) {
     // header twists on top (wrong mode / wrong version), keeping the rest of the layout
     let mut bytes = bytes;
     spec.built_version = bytes.first().map(|b| (b >> 3) & 7).unwrap_or(0);
+    if spec.strict {
+        spec.strict_bytes = Some(bytes.clone());
+    }
     if !bytes.is_empty() && chance("req.twist", 0.08) {
         let b0 = if chance("req.twist.version", 0.5) {
             let v = [0u8, 1, 2, 3, 4, 5, 6, 7][choose("req.twist.v", 8) as usize];
@@ -876,6 +885,7 @@ fn build_adversarial_nts(w: &mut World, ci: usize, r: &mut Rng, spec: &mut ReqSp
         spec.sess = Some((s.alg, s.s2c.clone(), s.c2s.clone()));
         (s.alg, s.c2s.clone())
     };
+    spec.cookie = Some(cookie.clone());
     let h = hand_header(r, spec, if v5 { 5 } else { 4 }, poll);
     let mut b = h.bytes();
     let mut valid = true;
@@ -1096,6 +1106,31 @@ fn seen_kind(s: Seen) -> Option<Kind> {
     }
 }
 
+/// Ground truth from the DELIVERED bytes: does this datagram authenticate as an NTS request of the
+/// session it was made under? Independent check: exactly one cookie field before the first
+/// authenticator field, carrying the cookie the server minted for the session, and the
+/// authenticator field decrypts under the session's c2s key with everything before it as
+/// associated data. Returns (server that minted the cookie, key epoch it was minted under).
+/// Nothing else can make the server accept a datagram as NTS: only holders of the c2s key can
+/// produce the authenticator, and the harness holds all of them.
+fn delivered_auth(bytes: &[u8], view: &wire::View, spec: &ReqSpec) -> Option<(usize, u64)> {
+    let (alg, _s2c, c2s) = spec.sess.as_ref()?;
+    let ck = spec.cookie.as_ref()?;
+    if !view.walk_ok {
+        return None;
+    }
+    let enc_i = view.fields.iter().position(|f| f.type_id == wire::T_ENC)?;
+    let mut cookies = view.fields[..enc_i].iter().filter(|f| f.type_id == wire::T_COOKIE);
+    let first = cookies.next()?;
+    if cookies.next().is_some() || !first.body.starts_with(&ck.bytes) {
+        return None;
+    }
+    let f = &view.fields[enc_i];
+    let (nonce, ct) = wire::split_enc(&f.body)?;
+    cipher_for(*alg, c2s).decrypt(nonce, ct, &bytes[..f.start]).ok()?;
+    Some((ck.server, ck.epoch))
+}
+
 async fn deliver(w: &mut World, d: Datagram<ReqSpec>) {
     let si = d.to as usize;
     let spec = d.meta.clone();
@@ -1119,6 +1154,10 @@ async fn deliver(w: &mut World, d: Datagram<ReqSpec>) {
 
     // ---- the model's view before the server sees the datagram --------------------------------
     let view = wire::walk(&bytes);
+    // every attribute the oracles use below is read from the delivered bytes (`view`, `auth`,
+    // `pristine_strict`), never from the generator's recipe
+    let auth = delivered_auth(&bytes, &view, &spec);
+    let pristine_strict = spec.strict_bytes.as_deref() == Some(&bytes[..]);
     let cfg = w.servers[si].cfg.clone();
     let verdict = oracle::lists(&cfg, addr);
     let slot = w.servers[si].indexer.verif_slot_index(addr);
@@ -1217,24 +1256,19 @@ async fn deliver(w: &mut World, d: Datagram<ReqSpec>) {
             (None, _) => true,
         };
         check!("C21", "c21-kind-matches-action", kind_ok, "client saw {seen:?} but the entry says {k:?} ({} request, {} bytes)", spec.label, bytes.len());
-        let plain = spec.nts == Nts::None && !view.has_nts_types();
+        let plain = !view.has_nts_types();
         if plain {
             check!("C21", "c21-nts-flag-on-plain", !nts, "NTS flag set for a {} request without NTS fields ({} bytes)", spec.label, bytes.len());
         }
-        // a request made by an NTS client (cookie + authenticator), whatever the server thinks of the cookie
-        let nts_request = !damaged && spec.nts != Nts::None && view.has_type(wire::T_COOKIE) && view.has_type(wire::T_ENC);
+        // a datagram that arrives with a cookie field and an authenticator field is an NTS request,
+        // whatever the server thinks of the cookie
+        let nts_request = view.walk_ok && view.has_type(wire::T_COOKIE) && view.has_type(wire::T_ENC);
         if nts_request && seen != Seen::Nothing {
-            let cookie_state = match &spec.nts {
-                Nts::Valid { cookie_server, cookie_epoch } => {
-                    if *cookie_server != si {
-                        "cookie of another server"
-                    } else if epoch - cookie_epoch > cfg.history as u64 {
-                        "cookie key rotated out"
-                    } else {
-                        "valid cookie"
-                    }
-                }
-                _ => "broken NTS fields",
+            let cookie_state = match auth {
+                Some((cs, _)) if cs != si => "authentic, cookie of another server",
+                Some((_, ce)) if epoch - ce > cfg.history as u64 => "authentic, cookie key rotated out",
+                Some(_) => "authentic, valid cookie",
+                None => "does not authenticate",
             };
             check!("C21", "c21-nts-flag-on-answered-nts", nts, "answered ({seen:?}) {} request ({cookie_state}) counted without the NTS flag", spec.label);
         }
@@ -1279,24 +1313,24 @@ async fn deliver(w: &mut World, d: Datagram<ReqSpec>) {
     if !bytes.is_empty() && !cfg.versions.contains(&view.version) {
         check!("C15", "c15-version-not-accepted-answered", seen == Seen::Nothing, "version {} (accepted {:?}) answered with {seen:?}", view.version, cfg.versions);
     }
-    if cfg.require_nts.is_some() && !matches!(spec.nts, Nts::Valid { .. }) {
-        check!("C15", "c15-plain-time-under-require-nts", seen != Seen::Time, "{} request that cannot authenticate got time although NTS is required", spec.label);
+    if cfg.require_nts.is_some() && auth.is_none() {
+        check!("C15", "c15-plain-time-under-require-nts", seen != Seen::Time, "{} request that (as delivered) does not authenticate got time although NTS is required", spec.label);
     }
-    let cookie_ok = match &spec.nts {
-        Nts::None => cfg.require_nts.is_none(),
-        Nts::Valid { cookie_server, cookie_epoch } => *cookie_server == si && epoch - cookie_epoch <= cfg.history as u64,
-        Nts::Broken => false,
+    let cookie_ok = match auth {
+        Some((cs, ce)) => cs == si && epoch - ce <= cfg.history as u64,
+        // delivered exactly as built and built without NTS fields
+        None => spec.sess.is_none() && !view.has_nts_types() && cfg.require_nts.is_none(),
     };
-    if let Nts::Valid { cookie_server, cookie_epoch } = &spec.nts {
-        if *cookie_server != si {
+    if let Some((cs, ce)) = auth {
+        if cs != si {
             probe("nts-cookie-of-another-server");
-        } else if epoch - cookie_epoch > cfg.history as u64 {
+        } else if epoch - ce > cfg.history as u64 {
             probe("nts-cookie-key-rotated-out");
-        } else if epoch != *cookie_epoch {
+        } else if epoch != ce {
             probe("nts-cookie-under-older-key");
         }
     }
-    let must_time = verdict == ListVerdict::Pass && !model_limited && spec.strict && !damaged && cfg.versions.contains(&view.version) && cookie_ok;
+    let must_time = verdict == ListVerdict::Pass && !model_limited && pristine_strict && cfg.versions.contains(&view.version) && cookie_ok;
     if must_time {
         check!(
             "C15",
@@ -1314,21 +1348,21 @@ async fn deliver(w: &mut World, d: Datagram<ReqSpec>) {
     let mut harvested: Vec<Vec<u8>> = Vec::new();
     if let Some(resp) = &obs.resp {
         let mut plain: Option<Vec<u8>> = None;
-        if let (Nts::Valid { .. }, Some(sess)) = (&spec.nts, spec.sess.as_ref()) {
+        if let Some(sess) = spec.sess.as_ref() {
             let rv = wire::walk(resp);
             if let Some(f) = rv.fields.iter().find(|f| f.type_id == wire::T_ENC) {
                 if let Some((nonce, ct)) = wire::split_enc(&f.body) {
                     let s2c = cipher_for(sess.0, &sess.1);
                     plain = s2c.decrypt(nonce, ct, &resp[..f.start]).ok();
                 }
-                if !damaged {
-                    check!("C18", "c18-nts-answer-unreadable", plain.is_some(), "answer to a valid {} request does not decrypt under the session's s2c key", spec.label);
+                if auth.is_some() {
+                    check!("C18", "c18-nts-answer-unreadable", plain.is_some(), "answer to an authentic {} request does not decrypt under the session's s2c key", spec.label);
                 }
             }
         }
         // canaries sit in fields that are not echoed *in the layout they were built for*
         // (damage can move a canary into a field that is echoed: those bytes may come back)
-        let echo_hdr = if view.version == 5 { &bytes[24..32] } else { &bytes[40..48] };
+        let echo_hdr: &[u8] = if bytes.len() < 48 { &[] } else if view.version == 5 { &bytes[24..32] } else { &bytes[40..48] };
         let canaries: Vec<[u8; 8]> = if view.version == spec.built_version {
             spec.canaries
                 .iter()
@@ -1339,7 +1373,7 @@ async fn deliver(w: &mut World, d: Datagram<ReqSpec>) {
             Vec::new()
         };
         let canaries = &canaries;
-        let ctx = oracle::RespCtx { req: &bytes, req_view: &view, resp, info: &info_model, recv_raw, plain: plain.as_deref(), canaries, nts_keys: matches!(spec.nts, Nts::Valid { .. }) };
+        let ctx = oracle::RespCtx { req: &bytes, req_view: &view, resp, info: &info_model, recv_raw, plain: plain.as_deref(), canaries, nts_keys: auth.is_some() };
         let findings = oracle::check_response(&ctx);
         simkit::oracle("C18");
         for (clause, detail) in findings {
@@ -1370,7 +1404,7 @@ async fn deliver(w: &mut World, d: Datagram<ReqSpec>) {
                 "nts-v5-adversarial" => "time:nts-v5-adversarial",
                 _ => "time:other",
             });
-            if spec.real_client && !damaged && matches!(spec.nts, Nts::Valid { .. }) {
+            if spec.real_client && pristine_strict && auth.is_some() {
                 let asked = view.count(wire::T_COOKIE) + view.count(wire::T_PLACEHOLDER);
                 if harvested.len() == asked {
                     probe("nts-client-got-as-many-cookies-as-fields");
